@@ -159,6 +159,8 @@ fn filter_sets() -> Vec<FilterSet> {
         FilterSet { name: "event_ecu2", json: r#"[{"type":3,"ecu":"ECU2"}]"#, keep: |m| m.ecu == "ECU2" },
         // several event filters: a message is kept when some of them matches
         FilterSet { name: "events_ecu2_or_apb", json: r#"[{"type":3,"ecu":"ECU2"},{"type":3,"apid":"APB"},{"type":0,"ctid":"CTX1"}]"#, keep: |m| m.ecu == "ECU2" || m.apid.starts_with("APB") },
+        // disabled positive and event filters next to an enabled negative one: they are no part of the set
+        FilterSet { name: "disabled_pos_event_neg_apb", json: r#"[{"type":0,"ecu":"ECU2","enabled":false},{"type":3,"apid":"APA","enabled":false},{"type":1,"apid":"APB"}]"#, keep: |m| !m.apid.starts_with("APB") },
     ]
 }
 const WINDOWS: [(usize, usize); 5] = [(0, 3), (2, 5), (4, 4), (NLOG - 1, NLOG + 5), (0, 20)];
@@ -586,7 +588,7 @@ impl Prop for C16 {
         Meta {
             id: "C16",
             level: "model_checking",
-            rule: "(A) library: for every log of N <= 6 (thorough 8) messages with every match pattern (2^N) x stream/query x window end 0..N+1 x max_chunk_size {1,2,3,inf} x every composition of N into arrival batches (x one window extension after every tick for queries) the real process_stream_new_msgs is called the way the server loop calls it; after every tick filtered_msgs must be strictly increasing and equal the matching positions below the progress marker (queries: the first 'window end' of them, marker never beyond an uncollected match), and complete after the final batch plus idle ticks. (B) server, through the cfg(adlt_verif) driver on the real handlers: 7 filter sets (incl. one with two event filters) x 5 windows x stream/query x binary/text x every composition of the 6-message log into arrival ticks; the same for one-pass sessions (collect = one_pass_streams, resume) with an idle server round after every tick; one window change after every tick x 3 new windows, also followed at once by the creation of a second stream on the same connection (its id must be fresh and each stream gets exactly its own window); search paging (7 stream filters x 7 search filters x page sizes {1,2,N} x start 0..2, following next_search_idx); index and time lookups for every message, sorted and unsorted. Oracle: frames for the announced id are exactly positions [start,end) of the filtered log with the file's index/times/ids/counters/payload text, none for unannounced or superseded ids, end-of-query marker last, new id after a window change gets exactly the new window, union of search pages = matching stream positions without duplicates, lookups answered ok: return the first stream position not before the request.".into(),
+            rule: "(A) library: for every log of N <= 6 (thorough 8) messages with every match pattern (2^N) x stream/query x window end 0..N+1 x max_chunk_size {1,2,3,inf} x every composition of N into arrival batches (x one window extension after every tick for queries) the real process_stream_new_msgs is called the way the server loop calls it; after every tick filtered_msgs must be strictly increasing and equal the matching positions below the progress marker (queries: the first 'window end' of them, marker never beyond an uncollected match), and complete after the final batch plus idle ticks. (B) server, through the cfg(adlt_verif) driver on the real handlers: 8 filter sets (incl. one with two event filters and one with disabled positive and event filters) x 5 windows x stream/query x binary/text x every composition of the 6-message log into arrival ticks; the same for one-pass sessions (collect = one_pass_streams, resume) with an idle server round after every tick; one window change after every tick x 3 new windows, also followed at once by the creation of a second stream on the same connection (its id must be fresh and each stream gets exactly its own window); search paging (8 stream filters x 8 search filters x page sizes {1,2,N} x start 0..2, following next_search_idx); index and time lookups for every message, sorted and unsorted. Oracle: frames for the announced id are exactly positions [start,end) of the filtered log with the file's index/times/ids/counters/payload text, none for unannounced or superseded ids, end-of-query marker last, new id after a window change gets exactly the new window, union of search pages = matching stream positions without duplicates, lookups answered ok: return the first stream position not before the request.".into(),
             assumptions: vec!["server level uses one generated 6-message log (two ECUs, one lifecycle each)".into(), "message-arrival batching is modelled by explicit ticks of the driver (receive budget)".into()],
             budget_s: (150, 1500),
             workers: 1,
